@@ -430,6 +430,27 @@ func genC18(o *hx.Out, tier string) {
 			rf.version = "0"
 			files[len(files)-1].version = strconv.Itoa(1 + r.Intn(200))
 		}
+		// every other package: the root extends an enum of a definition it includes with entries of its
+		// own (the generator merges them into one Go type)
+		if pi%2 == 1 {
+			for _, inc := range files {
+				if len(inc.enums) == 0 {
+					continue
+				}
+				be := inc.enums[0]
+				ext := xEnum{name: be.name, bitmask: be.bitmask}
+				for k := 0; k < 2; k++ {
+					en := fmt.Sprintf("%s_EXT%d_%d", be.name, pi, k)
+					v := strconv.Itoa(900000 + 10*pi + k)
+					if be.bitmask {
+						v = "2**" + strconv.Itoa(40+k)
+					}
+					ext.entries = append(ext.entries, xEntry{en, v})
+				}
+				rf.enums = append(rf.enums, ext)
+				break
+			}
+		}
 		all = append(all, rf.enums...)
 		for j := 0; j < 2+r.Intn(6); j++ {
 			rf.msgs = append(rf.msgs, g.msg(all))
